@@ -77,10 +77,11 @@ def run_batch(gh, idx, profile, n, extra, seed, reps=2):
 
 
 def load_case(d, tid):
+    """trace id = case id * 8 + index of the call within the case"""
     with open(os.path.join(d, "cases.ndjson")) as f:
         for line in f:
             c = json.loads(line)
-            if c["id"] == tid:
+            if c["id"] == tid // 8:
                 return c
     return None
 
@@ -190,6 +191,14 @@ def check(prop):
             raise ToolError("flagged trace %d has no case record" % tid)
         ok, codes = confirm(gh, case, p, "%s-%d" % (code, tid))
         evs = trace_events(b["dir"], tid)
+        if ok and tid % 8 > 0:
+            # the flagged call was not the first on its instance: if the same call is fine on a fresh
+            # instance, what was observed is an influence of the earlier calls (C08)
+            alone = dict(case)
+            alone["calls"] = [case["calls"][tid % 8]]
+            still, _ = confirm(gh, alone, p, "%s-%d-alone" % (code, tid))
+            if not still:
+                code, p = "C08-differs-from-fresh-instance(" + code + ")", "C08"
         if not ok:
             unreproduced += 1
             log("flag %s on trace %d did NOT reproduce in 30 fresh runs (flags now: %s)" % (code, tid, codes))
@@ -203,7 +212,7 @@ def check(prop):
     own_marks = sum(mark_counts.get(m, 0) for m in marks)
     samples = []
     for b in results[:3]:
-        c = load_case(b["dir"], min(load_ids(b["dir"])))
+        c = load_case(b["dir"], min(load_ids(b["dir"])) * 8)
         if c:
             samples.append({"profile": b["profile"], "variant": c["variant"], "grl": c["grl"], "calls": [
                 {"mode": x["mode"], "max": x["max"], "flag": x["flag"], "cancelAt": x["cancelAt"]} for x in c["calls"]]})
